@@ -103,7 +103,7 @@ def check(case):
 
 def _strategy(tier):
     return st.one_of(G.script(1, 3, comments=0), G.script(1, 3, comments=0), G.script(1, 2, comments=0),
-                     proc.script(depth=2, max_pre=1, max_post=2, comments=0)).map(lambda laid: {'lex': laid})
+                     proc.script(depth=2, max_pre=1, max_post=2, comments=0), proc.script(depth=3, max_pre=0, max_post=2, comments=0)).map(lambda laid: {'lex': laid})
 
 
 LEGS = [Leg('pairs', check=check, strategy=_strategy, examples={'quick': 8000, 'thorough': 150000})]
